@@ -343,6 +343,13 @@ func (d *Driver) GenVC(key string, safety bool, lockCheck bool) (fvc *FuncVC) {
 			vc.note("assumed data-structure invariant of " + key + ": " + rq.Src)
 		}
 	}
+	if c != nil && ex.lockCheck {
+		for _, hp := range c.Holds {
+			if pv, ok := env.vars[hp]; ok {
+				vc.assume("(select " + ex.get(st, ex.regSV("held", d.spec.ghosts["held"])) + " " + pv.T + ")")
+			}
+		}
+	}
 	d.captureObligations(ex, fn, key)
 	o := vc.oblige("vacuity", key+"/vacuity:requires-satisfiable", "true", "false", "preconditions and invariants are jointly satisfiable", "", nil)
 	o.Expect = "sat"
